@@ -135,6 +135,235 @@ theorem decode_LDRSW (env : Env) (x : BitVec 32) (hx : x &&& 0xff000000#32 = 0x9
 
 example : (0x58000041#32) &&& 0xff000000#32 = 0x58000000#32 ∧ specImm19 0x58000041#32 = 8#64 := by decide
 
+/-! ### the encodings goom itself EMITS on arm64 (internal/patch/monkey_arm64.go, internal/iface/jmp_arm64.go,
+    internal/bytecode/memory/icache_arm64.go): MOVZ/MOVK (64-bit), LDR (unsigned offset), BR/BLR/RET, NOP -/
+
+/-- MOVZ 64-bit (C6.2.191): every word `1 10 100101 hw imm16 Rd` decodes — and, exactly as the Arm ARM prescribes for the
+    preferred disassembly, to the alias `MOV Xd, #(imm16 << 16*hw)` unless `imm16 = 0 ∧ hw ≠ 0`, in which case to
+    `MOVZ Xd, #0, LSL #16*hw`.  The alias row's `canDecode` (condition.go:111) is interpreted by the model. -/
+theorem decode_MOVZ64 (env : Env) (x : BitVec 32) (hx : x &&& 0xff800000#32 = 0xd2800000#32) :
+    view (decode env x) =
+      if (imm16 x == 0#32 && hw x != 0#32) then
+        some ("MOVZ", [.reg true (r5 x 0), .immShift ((imm16 x).setWidth 16).toNat ((hw x * 16#32).setWidth 8).toNat])
+      else some ("MOV", [.reg true (r5 x 0), .imm64 (((imm16 x).setWidth 64) <<< (hw x * 16#32).toNat)]) := by
+  obtain ⟨r, h1, h2⟩ := decode_class2 env _ _ cond_mov_movz_64_movewide_cond _ rfl
+    "MOV" [arg_Xd, arg_immediate_shift_64_implicit_imm16_hw, 0, 0, 0]
+    "MOVZ" [arg_Xd, arg_immediate_OptLSL_amount_16_0_48, 0, 0, 0] (by decide +kernel) x hx
+  cases hc : (imm16 x == 0#32 && hw x != 0#32)
+  · simp only [hc, Bool.not_false, if_true] at h2
+    have h3 : r.args = [.reg true (r5 x 0), .imm64 (((imm16 x).setWidth 64) <<< (hw x * 16#32).toNat)] := by rw [h2.2]; rfl
+    simp [view, h1, h2.1, h3]
+  · simp only [hc, Bool.not_true, Bool.false_eq_true, if_false] at h2
+    have h3 : r.args = [.reg true (r5 x 0), .immShift ((imm16 x).setWidth 16).toNat ((hw x * 16#32).setWidth 8).toNat] := by rw [h2.2]; rfl
+    simp [view, h1, h2.1, h3]
+
+example : (0xd2a0001a#32) &&& 0xff800000#32 = 0xd2800000#32 ∧ (imm16 0xd2a0001a#32 == 0#32 && hw 0xd2a0001a#32 != 0#32) = true
+    ∧ (0xd282469a#32) &&& 0xff800000#32 = 0xd2800000#32 ∧ (imm16 0xd282469a#32 == 0#32 && hw 0xd282469a#32 != 0#32) = false := by decide
+
+/-- MOVK 64-bit (C6.2.190): `1 11 100101 hw imm16 Rd`, every hw -/
+theorem decode_MOVK64 (env : Env) (x : BitVec 32) (hx : x &&& 0xff800000#32 = 0xf2800000#32) :
+    view (decode env x) =
+      some ("MOVK", [.reg true (r5 x 0), .immShift ((imm16 x).setWidth 16).toNat ((hw x * 16#32).setWidth 8).toNat]) := by
+  obtain ⟨r, h1, h2, h3⟩ := decode_class env _ _ "MOVK" [arg_Xd, arg_immediate_OptLSL_amount_16_0_48, 0, 0, 0] (by decide +kernel) x hx
+  have h3' : r.args = [.reg true (r5 x 0), .immShift ((imm16 x).setWidth 16).toNat ((hw x * 16#32).setWidth 8).toNat] := by rw [h3]; rfl
+  simp [view, h1, h2, h3']
+
+example : (0xf2e2469a#32) &&& 0xff800000#32 = 0xf2800000#32 ∧ r5 0xf2e2469a#32 0 = 26
+    ∧ ((imm16 0xf2e2469a#32).setWidth 16).toNat = 0x1234 ∧ ((hw 0xf2e2469a#32 * 16#32).setWidth 8).toNat = 48 := by decide
+
+/-- LDR Xt, [Xn|SP, #imm12*8] (unsigned offset, C6.2.166): `11 111 0 01 01 imm12 Rn Rt` -/
+theorem decode_LDRuoff64 (env : Env) (x : BitVec 32) (hx : x &&& 0xffc00000#32 = 0xf9400000#32) :
+    view (decode env x) =
+      some ("LDR", [.reg true (r5 x 0), .mem (r5 x 5) (((((x >>> 10) &&& 0xfff#32) <<< 3).setWidth 32).toInt)]) := by
+  obtain ⟨r, h1, h2, h3⟩ := decode_class env _ _ "LDR" [arg_Xt, arg_Xns_mem_optional_imm12_8_unsigned, 0, 0, 0] (by decide +kernel) x hx
+  have h3' : r.args = [.reg true (r5 x 0), .mem (r5 x 5) (((((x >>> 10) &&& 0xfff#32) <<< 3).setWidth 32).toInt)] := by rw [h3]; rfl
+  simp [view, h1, h2, h3']
+
+example : (0xf940074a#32) &&& 0xffc00000#32 = 0xf9400000#32 ∧ r5 0xf940074a#32 0 = 10 ∧ r5 0xf940074a#32 5 = 26
+    ∧ ((((0xf940074a#32 >>> 10) &&& 0xfff#32) <<< 3).setWidth 32).toInt = 8 := by decide
+
+/-- BR Xn (C6.2.37) -/
+theorem decode_BR (env : Env) (x : BitVec 32) (hx : x &&& 0xfffffc1f#32 = 0xd61f0000#32) :
+    view (decode env x) = some ("BR", [.reg true (r5 x 5)]) := by
+  obtain ⟨r, h1, h2, h3⟩ := decode_class env _ _ "BR" [arg_Xn, 0, 0, 0, 0] (by decide +kernel) x hx
+  have h3' : r.args = [.reg true (r5 x 5)] := by rw [h3]; rfl
+  simp [view, h1, h2, h3']
+
+/-- BLR Xn (C6.2.35) -/
+theorem decode_BLR (env : Env) (x : BitVec 32) (hx : x &&& 0xfffffc1f#32 = 0xd63f0000#32) :
+    view (decode env x) = some ("BLR", [.reg true (r5 x 5)]) := by
+  obtain ⟨r, h1, h2, h3⟩ := decode_class env _ _ "BLR" [arg_Xn, 0, 0, 0, 0] (by decide +kernel) x hx
+  have h3' : r.args = [.reg true (r5 x 5)] := by rw [h3]; rfl
+  simp [view, h1, h2, h3']
+
+/-- RET {Xn} (C6.2.254) -/
+theorem decode_RET (env : Env) (x : BitVec 32) (hx : x &&& 0xfffffc1f#32 = 0xd65f0000#32) :
+    view (decode env x) = some ("RET", [.reg true (r5 x 5)]) := by
+  obtain ⟨r, h1, h2, h3⟩ := decode_class env _ _ "RET" [arg_Xn, 0, 0, 0, 0] (by decide +kernel) x hx
+  have h3' : r.args = [.reg true (r5 x 5)] := by rw [h3]; rfl
+  simp [view, h1, h2, h3']
+
+example : (0xd61f0140#32) &&& 0xfffffc1f#32 = 0xd61f0000#32 ∧ r5 0xd61f0140#32 5 = 10
+    ∧ (0xd65f03c0#32) &&& 0xfffffc1f#32 = 0xd65f0000#32 ∧ r5 0xd65f03c0#32 5 = 30 := by decide
+
+/-- NOP, goom's arm64 "already patched" sentinel `nopOpcode` (monkey_arm64.go:15): decodes to NOP without arguments -/
+theorem decode_NOP (env : Env) : view (decode env 0xd503201f#32) = some ("NOP", []) := by
+  obtain ⟨r, h1, h2, h3⟩ := decode_class env 0xffffffff#32 0xd503201f#32 "NOP" [0, 0, 0, 0, 0] (by decide +kernel) 0xd503201f#32 (by decide)
+  have h3' : r.args = [] := by rw [h3]; rfl
+  simp [view, h1, h2, h3']
+
+
+/-- little-endian instruction words of a byte sequence (4 bytes each) -/
+def wordsOf : List (BitVec 8) → List (BitVec 32)
+  | a :: b :: c :: d :: rest => BitVec.ofNat 32 (X86.leNat [a, b, c, d]) :: wordsOf rest
+  | _ => []
+
+private theorem words_movImm (opc sh val : BitVec 64) (ho : opc.toNat < 4) (hs : sh.toNat < 4) (hv : val.toNat < 65536) (rest : List (BitVec 8)) :
+    wordsOf (Gen.Arm64.movImm opc sh val ++ rest) = BitVec.ofNat 32 (movN opc.toNat sh.toNat val.toNat) :: wordsOf rest := by
+  obtain ⟨a, b, c, d, h⟩ := C15L.movImm_len4 opc sh val
+  have w := C15L.movImm_word opc sh val ho hs hv
+  rw [h] at w ⊢
+  simp only [List.cons_append, List.nil_append, wordsOf, w, movN]
+
+private theorem movz_word_view (env : Env) (v : Nat) (hv : v < 65536) :
+    view (decode env (BitVec.ofNat 32 (movN 2 0 v))) = some ("MOV", [.reg true 26, .imm64 (BitVec.ofNat 64 v)]) := by
+  have hc := movword_class 2 0 v (by omega) (by omega) hv
+  obtain ⟨f1, f2, f3⟩ := movword_fields 2 0 v (by omega) (by omega) hv
+  have hw0 : hw (BitVec.ofNat 32 (movN 2 0 v)) = 0#32 := BitVec.eq_of_toNat_eq (by simpa using f3)
+  rw [decode_MOVZ64 env _ (by rw [hc])]
+  simp only [hw0, f1]
+  have : (imm16 (BitVec.ofNat 32 (movN 2 0 v))).setWidth 64 = BitVec.ofNat 64 v := by
+    apply BitVec.eq_of_toNat_eq; simp [f2]
+  simp [this]
+
+private theorem movk_word_view (env : Env) (h v : Nat) (hh : h < 4) (hv : v < 65536) :
+    view (decode env (BitVec.ofNat 32 (movN 3 h v))) = some ("MOVK", [.reg true 26, .immShift v (16 * h)]) := by
+  have hc := movword_class 3 h v (by omega) hh hv
+  obtain ⟨f1, f2, f3⟩ := movword_fields 3 h v (by omega) hh hv
+  rw [decode_MOVK64 env _ (by rw [hc])]
+  have e1 : ((imm16 (BitVec.ofNat 32 (movN 3 h v))).setWidth 16).toNat = v := by simp [f2]; omega
+  have e2 : ((hw (BitVec.ofNat 32 (movN 3 h v)) * 16#32).setWidth 8).toNat = 16 * h := by
+    have hwv : hw (BitVec.ofNat 32 (movN 3 h v)) = BitVec.ofNat 32 h := by
+      apply BitVec.eq_of_toNat_eq; rw [f3, BitVec.toNat_ofNat]; omega
+    rw [hwv]
+    have : h = 0 ∨ h = 1 ∨ h = 2 ∨ h = 3 := by omega
+    rcases this with rfl | rfl | rfl | rfl <;> decide
+  simp [f1, e1, e2]
+
+/-- CROSS-PROPERTY (C15 × C17): the six instruction words of the entry jump goom writes on arm64
+    (`Gen.Arm64.jmpToFunctionValue`, regenerated from internal/patch/monkey_arm64.go) are, for EVERY target `dx`, decoded by goom's
+    own decoder model as `MOV X26,#dx[15:0]` (the architectural alias of MOVZ hw=0, see decode_MOVZ64), `MOVK X26,#dx[16k+15:16k], LSL #16k`
+    (k = 1,2,3), `LDR X10,[X26]`, `BR X10` — whatever the uninterpreted decoders do. -/
+theorem emitted_entry_jump_decodes (env : Env) (from_ dx : BitVec 64) :
+    (wordsOf (Gen.Arm64.jmpToFunctionValue from_ dx)).map (fun w => view (decode env w)) =
+      [ some ("MOV", [.reg true 26, .imm64 (dx &&& 0xffff#64)]),
+        some ("MOVK", [.reg true 26, .immShift ((dx >>> 16) &&& 0xffff#64).toNat 16]),
+        some ("MOVK", [.reg true 26, .immShift ((dx >>> 32) &&& 0xffff#64).toNat 32]),
+        some ("MOVK", [.reg true 26, .immShift ((dx >>> 48) &&& 0xffff#64).toNat 48]),
+        some ("LDR", [.reg true 10, .mem 26 0]),
+        some ("BR", [.reg true 10]) ] := by
+  have l0 : (dx &&& 0xffff#64).toNat < 65536 := by rw [C15L.lane0]; omega
+  have l1 : ((dx >>> 16) &&& 0xffff#64).toNat < 65536 := by rw [C15L.lane]; omega
+  have l2 : ((dx >>> 32) &&& 0xffff#64).toNat < 65536 := by rw [C15L.lane]; omega
+  have l3 : ((dx >>> 48) &&& 0xffff#64).toNat < 65536 := by rw [C15L.lane]; omega
+  simp only [Gen.Arm64.jmpToFunctionValue, List.replicate, List.nil_append, List.append_assoc]
+  rw [words_movImm _ _ _ (by decide) (by decide) l0, words_movImm _ _ _ (by decide) (by decide) l1,
+    words_movImm _ _ _ (by decide) (by decide) l2, words_movImm _ _ _ (by decide) (by decide) l3]
+  have e0 : (0x0#64).toNat = 0 := rfl
+  have e1 : (0x1#64).toNat = 1 := rfl
+  have e2 : (0x2#64).toNat = 2 := rfl
+  have e3 : (0x3#64).toNat = 3 := rfl
+  simp only [e0, e1, e2, e3, List.map_cons]
+  rw [movz_word_view env _ l0, movk_word_view env 1 _ (by omega) l1, movk_word_view env 2 _ (by omega) l2,
+    movk_word_view env 3 _ (by omega) l3]
+  have hl : view (decode env (BitVec.ofNat 32 (X86.leNat [0x4a#8, 0x3#8, 0x40#8, 0xf9#8]))) = some ("LDR", [.reg true 10, .mem 26 0]) := by
+    have : BitVec.ofNat 32 (X86.leNat [0x4a#8, 0x3#8, 0x40#8, 0xf9#8]) = 0xf940034a#32 := by decide
+    rw [this, decode_LDRuoff64 env _ (by decide)]; decide
+  have hb : view (decode env (BitVec.ofNat 32 (X86.leNat [0x40#8, 0x1#8, 0x1f#8, 0xd6#8]))) = some ("BR", [.reg true 10]) := by
+    have : BitVec.ofNat 32 (X86.leNat [0x40#8, 0x1#8, 0x1f#8, 0xd6#8]) = 0xd61f0140#32 := by decide
+    rw [this, decode_BR env _ (by decide)]; decide
+  simp [wordsOf, hl, hb]
+
+/-- the same for the interface stub (`Gen.IfaceArm64.jmpWithRdx`, internal/iface/jmp_arm64.go): scratch register X27 -/
+theorem emitted_stub_jump_decodes (env : Env) (dx : BitVec 64) :
+    (wordsOf (Gen.IfaceArm64.jmpWithRdx dx)).map (fun w => view (decode env w)) =
+      [ some ("MOV", [.reg true 26, .imm64 (dx &&& 0xffff#64)]),
+        some ("MOVK", [.reg true 26, .immShift ((dx >>> 16) &&& 0xffff#64).toNat 16]),
+        some ("MOVK", [.reg true 26, .immShift ((dx >>> 32) &&& 0xffff#64).toNat 32]),
+        some ("MOVK", [.reg true 26, .immShift ((dx >>> 48) &&& 0xffff#64).toNat 48]),
+        some ("LDR", [.reg true 27, .mem 26 0]),
+        some ("BR", [.reg true 27]) ] := by
+  have hmi : Gen.IfaceArm64.movImm = Gen.Arm64.movImm := rfl
+  have l0 : (dx &&& 0xffff#64).toNat < 65536 := by rw [C15L.lane0]; omega
+  have l1 : ((dx >>> 16) &&& 0xffff#64).toNat < 65536 := by rw [C15L.lane]; omega
+  have l2 : ((dx >>> 32) &&& 0xffff#64).toNat < 65536 := by rw [C15L.lane]; omega
+  have l3 : ((dx >>> 48) &&& 0xffff#64).toNat < 65536 := by rw [C15L.lane]; omega
+  simp only [Gen.IfaceArm64.jmpWithRdx, hmi, List.replicate, List.nil_append, List.append_assoc]
+  rw [words_movImm _ _ _ (by decide) (by decide) l0, words_movImm _ _ _ (by decide) (by decide) l1,
+    words_movImm _ _ _ (by decide) (by decide) l2, words_movImm _ _ _ (by decide) (by decide) l3]
+  have e0 : (0x0#64).toNat = 0 := rfl
+  have e1 : (0x1#64).toNat = 1 := rfl
+  have e2 : (0x2#64).toNat = 2 := rfl
+  have e3 : (0x3#64).toNat = 3 := rfl
+  simp only [e0, e1, e2, e3, List.map_cons]
+  rw [movz_word_view env _ l0, movk_word_view env 1 _ (by omega) l1, movk_word_view env 2 _ (by omega) l2,
+    movk_word_view env 3 _ (by omega) l3]
+  have hl : view (decode env (BitVec.ofNat 32 (X86.leNat [0x5b#8, 0x3#8, 0x40#8, 0xf9#8]))) = some ("LDR", [.reg true 27, .mem 26 0]) := by
+    have : BitVec.ofNat 32 (X86.leNat [0x5b#8, 0x3#8, 0x40#8, 0xf9#8]) = 0xf940035b#32 := by decide
+    rw [this, decode_LDRuoff64 env _ (by decide)]; decide
+  have hb : view (decode env (BitVec.ofNat 32 (X86.leNat [0x60#8, 0x3#8, 0x1f#8, 0xd6#8]))) = some ("BR", [.reg true 27]) := by
+    have : BitVec.ofNat 32 (X86.leNat [0x60#8, 0x3#8, 0x1f#8, 0xd6#8]) = 0xd61f0360#32 := by decide
+    rw [this, decode_BR env _ (by decide)]; decide
+  simp [wordsOf, hl, hb]
+
+/-! ### totality of argument decoding — by mechanical translation of `decodeArg` (tools/a64args → Gen/A64Args.lean)
+
+    `Gen.A64Args.decodeArgOut k x` is the Go `decodeArg(k, x)` as far as "non-nil / nil / panic" goes, produced from the Go AST on
+    every run: all 311 case clauses, the four `handle_*` helpers, 91 of the 93 `canDecode` predicates (the two that call `bit_count`,
+    a loop, are listed in `Gen.A64Args.untranslated`).  Every operation that can panic in Go (index, division by a variable, shift by a
+    signed variable) is translated to an explicit test with a `panic` outcome; constructs outside the fragment make a case
+    `unknown`.  `Gen.A64Args.badKinds` lists the kinds with a `panic` or `unknown` leaf; the generated lemma `decodeArgOut_ok` covers
+    all others, for all words.  Trusted here: the translator (validated on every run against the real `decodeArg` and the real
+    predicates, see checks/C17.py).  NOT covered: termination of the one loop in `handle_bitmasks` (`Gen.A64Args.loops`), the value
+    of the argument, and `Inst.String()`. -/
+
+/-- for EVERY table row, every argument kind it uses and EVERY one of the 2^32 words, argument decoding returns an argument or
+    nil: it never panics (and no row uses a kind outside the translated fragment). -/
+theorem argdec_total (r : Row) (hr : r ∈ table) (k : Nat) (hk : k ∈ r.args) (x : BitVec 32) :
+    Gen.A64Args.decodeArgOut k x = .val ∨ Gen.A64Args.decodeArgOut k x = .nil := by
+  have hall : table.all (fun r => r.args.all (fun k => !Gen.A64Args.badKinds.contains k)) = true := by decide +kernel
+  have h1 := List.all_eq_true.mp (List.all_eq_true.mp hall r hr) k hk
+  exact Gen.A64Args.decodeArgOut_ok k x (by simpa using h1)
+
+/-- … and in fact for every kind number whatsoever today: no case of the switch contains an operation that can panic -/
+theorem argdec_no_partial_case : Gen.A64Args.badKinds = [] := by decide
+
+/-- every `canDecode` predicate attached to a row is translated, except the two that count bits with a loop -/
+theorem preds_translated :
+    table.all (fun r => !r.cond || (genCond r.condId).isSome ||
+      ["sxtl_sshll_asimdshf_l_cond", "uxtl_ushll_asimdshf_l_cond"].contains ((condNames[r.condId - 1]?).getD "")) = true := by
+  decide +kernel
+
+/-- ORACLE-FREE decoding: with the translated decoders and predicates plugged in, the result of `Decode` on any word no longer
+    depends on the oracle, except through the untranslated predicates (two today): decodability, chosen row and opcode of all
+    2^32 words are a function of the regenerated table and the regenerated translation alone. -/
+theorem decodeFull_oracle_free (fb1 fb2 : Env) (x : BitVec 32)
+    (hc : ∀ i c x, genCond c = none → fb1.condOk i c x = fb2.condOk i c x) :
+    decodeFull fb1 x = decodeFull fb2 x := by
+  have hall : table.all (fun r => r.args.all (fun k => !Gen.A64Args.badKinds.contains k)) = true := by decide +kernel
+  exact decodeFrom_genEnv_indep fb1 fb2 x hc table 0
+    (fun r hr k hk => by simpa using List.all_eq_true.mp (List.all_eq_true.mp hall r hr) k hk)
+
+/-- the class theorems above hold in particular for the oracle-free model -/
+example (fb : Env) : view (decodeFull fb 0x94000010#32) = some ("BL", [.pcrel 64#64]) := by
+  have := decode_BL (genEnv fb) 0x94000010#32 (by decide)
+  have hs : specImm26 0x94000010#32 = 64#64 := by decide
+  rw [hs] at this
+  exact this
+
+/-- `ADD W0, W0, #0, LSL #24` has shift field 2: `arg_IAddSub` returns nil (decode.go:111), so the word is not an ADD (immediate) -/
+example : Gen.A64Args.decodeArgOut 16 0x11800000#32 = .nil ∧ Gen.A64Args.decodeArgOut 16 0x11400000#32 = .val := by decide
+
 /-! ### what the scans rely on: "error / Op == 0" (func_arm64.go:45-58, :118-126) -/
 
 /-- a successful decode never carries `Op == 0`: the `inst.Op == 0 && code[0] == 0x00` padding test of both scans can
@@ -215,7 +444,7 @@ theorem inner_func_call (env : Env) (mem : Nat → BitVec 32) (start : BitVec 64
         exact ⟨r, rfl, by simp [isCall, hb.1], hb.2⟩
   obtain ⟨r, hd, hcall, hargs⟩ := key
   have hop : r.op ≠ 0 := decode_op_ne_zero env _ r hd
-  simp [getInnerFunc, hd, isInt0, hop, callHit, hcall, hargs, ht]
+  simp [getInnerFunc, hd, isInt0, callHit, hcall, hargs, ht]
 
 /-- a wrapper whose first word is `BL .+64` -/
 example : ∀ env, getInnerFunc env (fun c => if c = 0 then 0x94000010#32 else 0#32) 0x400000#64 1 0 false = .target 0x400040#64 :=
@@ -246,6 +475,6 @@ example : ∀ env, getFuncSize env (fun c => if c = 0 then 0xd503201f#32 else 0#
   | some (some r) =>
     have h1 := decodeDef_sound env _ _ hd
     have hop := decode_op_ne_zero env _ r h1
-    simp [getFuncSize, h1, h0, isInt0, prologueAt, hop]
+    simp [getFuncSize, h1, h0, isInt0, prologueAt]
 
 end C17
